@@ -7,6 +7,10 @@ import SqiProofs.QuatLatMul
 import SqiProofs.QuatIndex
 import SqiProofs.QuatDual
 import SqiProofs.QuatCanon
+import SqiProofs.QuatEqual
+import SqiProofs.HnfEchelon
+import SqiProofs.QuatGroupIndex
+import SqiProofs.QuatO0
 import SqiGen.QuatAlg
 /- C14 — "Quaternion algebra and lattice arithmetic is exact and canonical".
    Property theorems about the hand model `SqiModel.Quat` (tie H: the model's executable definitions are run
@@ -58,6 +62,13 @@ theorem quat_alg_equal_denom_exact (p : ℤ) (a b : Elem) (ha : a.denom ≠ 0) (
 
 theorem quat_alg_normalize_exact (p : ℤ) (x : Elem) (hx : x.denom ≠ 0) :
     val p (algNormalize x) = val p x ∧ 0 < (algNormalize x).denom := algNormalize_val p x hx
+
+/-- `from_1ijk_to_O0basis`: for an element of O₀ (the four divisibilities are exactly "x ∈ O₀"; the C code asserts them in
+    debug builds only) the returned vector is the coordinate vector of x in the basis ⟨1, i, (i+j)/2, (1+ij)/2⟩ of O₀ -/
+theorem o0basis_exact (el : Elem)
+    (h0 : el.denom ∣ el.coord.x0 - el.coord.x3) (h1 : el.denom ∣ el.coord.x1 - el.coord.x2)
+    (h2 : el.denom ∣ el.coord.x2 + el.coord.x2) (h3 : el.denom ∣ el.coord.x3 + el.coord.x3) :
+    CoordsOf O0lat el (from1ijkToO0 el) := from1ijkToO0_spec el h0 h1 h2 h3
 
 /-! ### tie T: the coordinate formula re-extracted from algebra.c on every run -/
 
@@ -121,6 +132,13 @@ theorem hnf_shape (g : List Vec4) :
       0 < (hnfCore g).get r r ∧ ∀ c, r < c → c < 4 → 0 ≤ (hnfCore g).get r c ∧ (hnfCore g).get r c < (hnfCore g).get r r :=
   hnfCoreWith_shape SqiProofs.Xgcd.xgcdGmp_spec g
 
+/-- **rank-deficient inputs included**: every output of `ibz_mat_4x8_hnf_core` is in echelon Hermite form — `z` zero
+    columns (z = 4 − rank) followed by pivot columns whose pivots (lowest non-zero entry of the column) are positive, lie in
+    strictly increasing rows, have only zeros to their left in their row and entries in `[0, pivot)` to their right.
+    Together with `hnf_span` (same lattice for every input) this is the full description of the routine on inputs of
+    any rank; uniqueness is proved for full rank only (`hnf_canonical`). -/
+theorem hnf_echelon (g : List Vec4) : IsEchelonHNF (hnfCore g) := hnfCore_echelon g
+
 /-- **`hnf_is_hnf`**: full-rank input ⇒ the output is in Hermite normal form -/
 theorem hnf_is_hnf (g : List Vec4) (hg : g.length ≤ 8) (hfr : FullRank (spanL g)) : IsHNF (hnfCore g) :=
   hnfCore_isHNF g hg hfr
@@ -183,6 +201,20 @@ theorem lattice_intersect_exact (l1 l2 : Lattice) (h1 : l1.denom ≠ 0) (h2 : l2
     ratLat (latIntersect l1 l2) = ratLat l1 ⊓ ratLat l2 ∧ (latIntersect l1 l2).denom ≠ 0 ∧
     IsHNF (latIntersect l1 l2).basis ∧ Reduced (latIntersect l1 l2) := latIntersect_spec l1 l2 h1 h2 hd1 hd2
 
+/-- the basis returned by `quat_lattice_mul` is in Hermite normal form (both factors of full rank, p > 0: the algebra
+    has no zero divisors, so already (first column of L₁)·L₂ has full rank) -/
+theorem lattice_mul_isHNF (p : ℤ) (hp : 0 < p) (l1 l2 : Lattice) (h1 : l1.denom ≠ 0) (h2 : l2.denom ≠ 0)
+    (hd1 : (toMatrix l1.basis).det ≠ 0) (hd2 : (toMatrix l2.basis).det ≠ 0) : IsHNF (latMul p l1 l2).basis :=
+  latMul_isHNF p hp l1 l2 h1 h2 hd1 hd2
+
+/-- `quat_lattice_equal` is reflexive and symmetric for ALL inputs and transitive whenever the middle denominator is
+    non-zero — as a relation on the data, independent of any HNF precondition (a comparison that takes the absolute
+    value of the wrong denominator breaks the symmetry clause) -/
+theorem lattice_equal_equivalence (l1 l2 l3 : Lattice) :
+    latEqual l1 l1 = true ∧ latEqual l1 l2 = latEqual l2 l1 ∧
+    (l2.denom ≠ 0 → latEqual l1 l2 = true → latEqual l2 l3 = true → latEqual l1 l3 = true) :=
+  ⟨latEqual_refl l1, latEqual_symm l1 l2, latEqual_trans l1 l2 l3⟩
+
 /-- `quat_lattice_index` is the covolume ratio (the index when sub ⊆ over), for triangular bases -/
 theorem lattice_index_exact (sub over : Lattice) (hs : sub.denom ≠ 0) (ho : over.denom ≠ 0)
     (hts : ∀ r c, r < 4 → c < r → sub.basis.get r c = 0) (hto : ∀ r c, r < 4 → c < r → over.basis.get r c = 0)
@@ -203,6 +235,21 @@ theorem lattice_canonical (l1 l2 : Lattice) (h1 : l1.denom ≠ 0) (h2 : l2.denom
     (hn1 : IsHNF l1.basis) (hn2 : IsHNF l2.basis) (r1 : Reduced l1) (r2 : Reduced l2)
     (h : ratLat l1 = ratLat l2) : l1.basis = l2.basis ∧ l1.denom.natAbs = l2.denom.natAbs :=
   lattice_repr_unique l1 l2 h1 h2 hn1 hn2 r1 r2 h
+
+/-- **`quat_lattice_index` is the group index**: for nested full-rank lattices with triangular (e.g. HNF) bases the
+    result is [over : sub] = Mathlib's `AddSubgroup.relIndex` of the two rational lattices (the exactness of the
+    integer division asserted in the C code follows from the inclusion) -/
+theorem lattice_index_is_group_index (sub over : Lattice) (hs : sub.denom ≠ 0) (ho : over.denom ≠ 0)
+    (hts : ∀ r c, r < 4 → c < r → sub.basis.get r c = 0) (hto : ∀ r c, r < 4 → c < r → over.basis.get r c = 0)
+    (hds : (toMatrix sub.basis).det ≠ 0) (hdo : (toMatrix over.basis).det ≠ 0) (hle : ratLat sub ≤ ratLat over) :
+    latIndex sub over = (((ratLat sub).toAddSubgroup.relIndex (ratLat over).toAddSubgroup : ℕ) : ℤ) ∧
+    (((ratLat sub).toAddSubgroup.relIndex (ratLat over).toAddSubgroup : ℕ) : ℚ) = covol sub / covol over :=
+  ⟨latIndex_eq_relIndex sub over hs ho hts hto hds hdo hle, relIndex_eq_covol_ratio sub over hs ho hds hdo hle⟩
+
+/-- inclusion of full-rank lattices with equal covolume is equality -/
+theorem lattice_eq_of_le_of_covol (l' l : Lattice) (hd' : l'.denom ≠ 0) (hd : l.denom ≠ 0)
+    (hne : (toMatrix l.basis).det ≠ 0) (hle : ratLat l' ≤ ratLat l) (hcov : covol l' = covol l) :
+    ratLat l' = ratLat l := ratLat_eq_of_le_of_covol l' l hd' hd hne hle hcov
 
 /-! ## non-vacuity: the hypotheses are met by concrete non-trivial instances -/
 
@@ -230,10 +277,17 @@ example : (⟨-3, ⟨1, -2, 5, 7⟩⟩ : Elem).denom ≠ 0 := by decide
 
 example : Reduced O0 := by unfold Reduced; decide
 
+/-- nested pair for the index theorems: 2·O₀ ⊂ O₀ (same basis, denominator 1 instead of 2), index 2⁴ -/
+example : latIndex ⟨1, O0.basis⟩ O0 = 16 := by decide
+
 /-- a non-triangular basis whose upper triangle is divisible by 7 while the whole matrix has content 1: mulmat(x) for
     x = (7 + 14i + j + 2ij)/7 in the algebra with p = 7 (the basis `quat_lideal_create_principal` reduces before the HNF) -/
 example : (rightMulMat 7 ⟨7, ⟨7, 14, 1, 2⟩⟩).gcd = 1 ∧
     latReduceDenom ⟨7, rightMulMat 7 ⟨7, ⟨7, 14, 1, 2⟩⟩⟩ = ⟨7, rightMulMat 7 ⟨7, ⟨7, 14, 1, 2⟩⟩⟩ := by decide
+
+/-- non-vacuity of `hnf_echelon` in the rank-deficient case: rank 3 input ⇒ exactly one zero column in front -/
+example : (hnfCore [⟨1, 0, 0, 0⟩, ⟨2, 0, 0, 0⟩, ⟨0, 1, 0, 0⟩, ⟨0, 0, 1, 0⟩]).cols =
+    [⟨0, 0, 0, 0⟩, ⟨1, 0, 0, 0⟩, ⟨0, 1, 0, 0⟩, ⟨0, 0, 1, 0⟩] := by decide
 
 /-- a rank-deficient input really produces a zero diagonal entry (so the hypothesis of `hnf_is_hnf` matters) -/
 example : (hnfCore [⟨1, 0, 0, 0⟩, ⟨2, 0, 0, 0⟩, ⟨0, 1, 0, 0⟩, ⟨0, 0, 1, 0⟩]).get 0 0 = 0 := by decide
